@@ -229,7 +229,13 @@ def recheck_seeded(a):
         if os.path.exists(pth):
             todo.append({"id": d, "patch": pth, "file": d, "line": 0, "op": "seeded", "col": 0})
     outp = os.path.join(a.out, "seeded_recheck.jsonl" if not a.own_only else "seeded_own_seed%d.jsonl" % a.seed)
-    open(outp, "w").close()
+    done = set()
+    if a.own_only and os.path.exists(outp):
+        # resume: changes filed after an earlier run are added, nothing is re-run
+        done = {json.loads(l)["id"] for l in open(outp) if l.strip()}
+        todo = [m for m in todo if m["id"] not in done]
+    else:
+        open(outp, "w").close()
     lock = threading.Lock()
     it = iter(todo)
 
